@@ -494,7 +494,7 @@ def finish(root, prop, tier, seed, results, wall, no_evidence=False, extra=None)
             bounded.append(rec["bounded"])
         units_ev.append({k: rec.get(k) for k in ("unit", "module", "status", "reason", "describe", "backend", "checker_cmd", "obligations", "discharged",
                                                   "smt_ms", "verus_wall_s", "wall_s", "attempts", "items", "rule_counts", "rewrites",
-                                                  "functions", "changed_items", "bounded", "harnesses") if rec.get(k) is not None})
+                                                  "functions", "changed_items", "bounded", "harnesses", "vacuity_probe") if rec.get(k) is not None})
     # known-finding obligations are not counted as obligations of the proof claim
     n_known = len(known_seen)
     ev = {
